@@ -15,10 +15,16 @@ CLAIMS = {
     'C08': dict(ref='DESIGN.md §3 C08',
                 text="Bounded symbolic model checking of Decimal.Round/Ceil/Floor and the package functions: digits dropped k (concrete) x quantum-exponent class, coefficient/exponent/sign/mode symbolic, dp ranges over all of int64; oracle = exact quantisation specification incl. quanta above the largest exponent and int overflow of dp.",
                 note=TRUST + "Quick tier samples (k, overflow-class) pairs with the boundary ones always included; thorough runs all."),
+    'C11': dict(ref='DESIGN.md §3 C11',
+                text="Bounded symbolic model checking of New, Ldexp and Frexp: every int64 coefficient / 128-bit pattern and every int exponent (three regions of the resulting exponent), DefaultRoundingMode symbolic; the rounding kernel is cut: the harness proves the kernel receives exactly sig x 10^exp (frac x 10^exp), that the early zero/infinity exits are taken only where the correctly rounded result is zero/infinite, and Frexp's exact decomposition with 0.1 <= |frac| < 1; reduce64/reduce128 are proved against the rounding specification.",
+                note=TRUST + "Assume-guarantee at the rounding kernel. Rounding follows DefaultRoundingMode (nearest-even by default; all six values are checked)."),
     'C12': dict(ref='DESIGN.md §3 C12',
                 text="Bounded symbolic model checking of the real MarshalBinary/UnmarshalBinary/decompose code: all 2^128 bit patterns are two symbolic words, every byte-slice length 0..64 has all bytes symbolic; an independent BID decoder is the oracle.",
                 note=TRUST + "errors.New is an opaque non-nil value. Slices longer than 64 bytes are outside the bound."),
 }
+CLAIMS['C19'] = dict(ref='DESIGN.md §3 C19',
+                     text="Bounded symbolic model checking of Canonical on every 128-bit pattern (loops fully unrolled): same value and sign, the unique cohort member whose exponent is closest to zero, NaN payload and Inf garbage stripped, idempotent. Encoding independence of Add/Sub, comparisons, Round/Ceil/Floor, New/Ldexp/Frexp is discharged by the value-level oracles of C01/C04/C08/C11, whose operands range over all cohort members.",
+                     note=TRUST + "Encoding independence of formatting, conversions and the transcendental functions is not covered by this check.")
 NA = {
     'C16': "accuracy of the exp/log series is numerical analysis over iterated 192-bit mul/div with data-dependent loops; no bounded solver query decides a one-ulp error bound (DESIGN.md §5)",
     'C17': "convergence of the fixed-count Heron/Halley iterations with symbolic 192-bit division is not expressible as a decidable bounded query (DESIGN.md §5)",
